@@ -37,7 +37,7 @@ def _case(draw, tier):
         # size gaps (e.g. triangles + pentagons, no quads): merge aggressively
         mesh = draw(meshgen.hull_mesh(6, 40 if big else 22, partial=True))
     else:
-        mesh = draw(meshgen.any_mesh(max_pts=40 if big else 18))
+        mesh = draw(meshgen.any_mesh(max_pts=40 if big else 18, orphans=True))
         if kind == "subdiv":
             mesh = meshgen.subdivide_edges(draw, mesh)
     n_node = len(mesh["nodes"])
